@@ -112,17 +112,25 @@ class Synth:
         self.G = [self.gm.state_table(u) for u in aut.win['[]<>']]
         self.z, self.iterates = solve(aut, self.rabin)
         self.ztab = self.gm.state_table(self.z)
+        self._init_cache = {}
         if qinit is not None:
             self.set_init(qinit, ei, si)
+
+    def _init_pred(self, spec):
+        key = repr(spec)
+        r = self._init_cache.get(key)
+        if r is None:
+            u = init_bdd(self.aut, spec, self.z)
+            r = (u, self.gm.state_table(u))
+            self._init_cache[key] = r
+        return r
 
     def set_init(self, qinit, ei, si):
         aut = self.aut
         aut.qinit = qinit
         self.qinit = qinit
-        aut.init['env'] = init_bdd(aut, ei, self.z)
-        aut.init['sys'] = init_bdd(aut, si, self.z)
-        self.EI = self.gm.state_table(aut.init['env'])
-        self.SI = self.gm.state_table(aut.init['sys'])
+        aut.init['env'], self.EI = self._init_pred(ei)
+        aut.init['sys'], self.SI = self._init_pred(si)
 
     def reference_region(self):
         return self.gm.winning(self.P, self.G, self.rabin)
